@@ -171,6 +171,8 @@ func (tm *TransferManager) Send(b bpv7.Bundle) error {
 	}()
 
 	var inLen, outLen int
+	// The outgoing length is unknown until all segments were sent; it must not match an acknowledgement of zero bytes.
+	outLen = -1
 	for {
 		select {
 		case err := <-errChan:
